@@ -39,6 +39,14 @@ func (c *ShipConnection) protocolHandshake() model.MessageProtocolHandshake {
 func (c *ShipConnection) handshakeProtocol_smeProtHStateServerListenProposal(message []byte) {
 	_, data := c.parseMessage(message, true)
 
+	// if the local user approved a pending request right away, the hello "ready"
+	// of the remote can still be on its way and arrives here: it is not a proposal
+	var helloMsg model.ConnectionHello
+	if err := json.Unmarshal([]byte(data), &helloMsg); err == nil &&
+		helloMsg.ConnectionHello.Phase == model.ConnectionHelloPhaseTypeReady {
+		return
+	}
+
 	messageProtocolHandshake := model.MessageProtocolHandshake{}
 	if err := json.Unmarshal([]byte(data), &messageProtocolHandshake); err != nil {
 		c.endHandshakeWithError(err)
